@@ -3,7 +3,7 @@
 //verif:assume end-to-end update through the real code: two bundles uploaded with implUpload into one repository (real cafs, BLAKE2b as injective UF), the first downloaded with Publish into a local store, then Update(remote second bundle, local copy) as the CLI calls it; compared with a fresh Publish of the second bundle
 //verif:assume trees over the files a, b, c: each absent or present with one of two contents in either bundle (a and b; c only in thorough), so identical trees under different bundle ids, empty trees, disjoint trees and same-path-different-content all occur
 //verif:assume update under faults: trees {a: one, d/b: one} -> {a: two, c: new} (one file changed, one removed, one added), the local copy updated with one transient fault at a solver-chosen store call (metadata, blob or local store, reads and listings included)
-//verif:cover VerifC05UpdateFaults update-failed
+//verif:cover VerifC05UpdateFaults update-failed local-metadata-read-cut
 //verif:cover VerifC05UpdateE2E identical-trees-different-ids empty-target empty-source changed-content nested-metadata-lookalike local-delete-fails
 package core
 
@@ -160,13 +160,30 @@ func VerifC05UpdateFaults() {
 	local := newVStore("local")
 	vAssert(Publish(ctx, NewBundle(Repo("r"), ContextStores(stores), ConsumableStore(local), BundleID(b1.BundleID), Logger(zap.NewNop()), ConcurrentFileDownloads(1), ConcurrentFilelistDownloads(1))) == nil, "first-download")
 	cr := &vCrasher{stores: []*vStore{meta, blob, local}, allCalls: true, transient: true}
-	cr.crashAt = vInt("faultAt", 1, 60)
-	cr.install()
+	cutMeta := vChoose("faultKind", 2) == 1
+	if cutMeta {
+		// instead of a failing call: the read of one of the local copy's metadata files (descriptor or file list) is cut
+		vCover("local-metadata-read-cut")
+		var metaKeys []string
+		for _, k := range local.keys {
+			if model.IsGeneratedFile(k) {
+				metaKeys = append(metaKeys, k)
+			}
+		}
+		vAssert(len(metaKeys) >= 2, "local-metadata")
+		local.cutAfter = map[string]int{metaKeys[vChoose("metadataFile", len(metaKeys))]: 1}
+	} else {
+		cr.crashAt = vInt("faultAt", 1, 60)
+		cr.install()
+	}
 	localBundle := NewBundle(ConsumableStore(local), Logger(zap.NewNop()))
 	remoteBundle := NewBundle(Repo("r"), ContextStores(stores), BundleID(b2.BundleID), Logger(zap.NewNop()), ConcurrentFileDownloads(1), ConcurrentFilelistDownloads(1))
 	err := Update(ctx, remoteBundle, localBundle)
-	cr.revive()
-	vAssume(cr.crashed)
+	local.cutAfter = nil
+	if !cutMeta {
+		cr.revive()
+		vAssume(cr.crashed)
+	}
 	if err != nil {
 		vCover("update-failed")
 		return
